@@ -99,7 +99,7 @@ Proof.
   destruct ex_dsttree_wf as [A B]. unfold ex_dst.
   destruct (copy_top o_plain sel_all ex_dsttree fs_empty [] s_slash) as [st' e] eqn:E.
   assert (e = None) by (apply (f_equal snd) in E; vm_compute in E; congruence). subst e.
-  eapply (copy_preserves_wf_proof o_plain ex_dsttree A (links_consistent_nolinks _ B) (or_introl B)); eauto. apply fs_empty_wf.
+  eapply (copy_preserves_wf_proof o_plain ex_dsttree A (links_consistent_nolinks _ B)); eauto. apply fs_empty_wf.
 Qed.
 
 Lemma ex_src_links_wf : wf_src ex_src_links /\ links_consistent ex_src_links.
@@ -111,10 +111,10 @@ Proof.
             repeat (first [apply Forall_nil|apply Forall_cons])).
 Qed.
 
-(* ---- the known finding hardlink-first-copy-overwritten as a model-level witness ----
+(* ---- the former finding hardlink-first-copy-overwritten (repaired by forgetLinkSources) ----
    d1/f1 (AAA) and d2/f2 are one inode; d2/f1 (BBB) is another file.  Copy "d*/f?" (wildcards)
-   to "/": d1/f1 -> /f1 is recorded as the first copy of the link group, d2/f1 overwrites /f1,
-   d2/f2 is then hard-linked to /f1 and reads BBB. *)
+   to "/": d1/f1 -> /f1 is recorded as the copy of the link group, d2/f1 replaces /f1 (the record
+   is forgotten), d2/f2 is copied afresh and reads AAA. *)
 Definition n_d1 : list N := [100; 49]. Definition n_d2 : list N := [100; 50].
 Definition n_f1 : list N := [102; 49]. Definition n_f2 : list N := [102; 50].
 Definition ex_A : dent := exd (S_IFREG + 420) 0 0 10 [] [] [65; 65; 65].
@@ -128,33 +128,60 @@ Definition o_wild_on : copts :=
      o_replace := false; o_wild := true; o_umask := 18 |}.
 Definition stale_pat : list N := [100; 42; 47; 102; 63].   (* "d*/f?" *)
 
+Ltac cons_tac :=
+  repeat (apply cons_s_unfold; split; [intros H1 H2; first [reflexivity | vm_compute in H1; discriminate H1 | vm_compute in H2; discriminate H2]|];
+          repeat (first [apply Forall_nil|apply Forall_cons])).
+
 Lemma ex_stale_src_wf : wf_src ex_stale_src /\ links_consistent ex_stale_src.
 Proof.
   split; [split; [|reflexivity]|].
   - unfold ex_stale_src. repeat wf_node.
-  - exists (fun _ => ex_A). unfold ex_stale_src.
-    repeat (apply cons_s_unfold; split; [intros H1 H2; first [reflexivity | vm_compute in H1; discriminate H1 | vm_compute in H2; discriminate H2]|];
-            repeat (first [apply Forall_nil|apply Forall_cons])).
+  - exists (fun _ => ex_A). unfold ex_stale_src. cons_tac.
 Qed.
 
-(* the full statement of copy_overlay (wildcards together with link groups) is false of the model *)
-Lemma copy_overlay_refuted_proof :
+(* ---- the residual of that repair: a link group spread over two inodes ----
+   d1/f2, f and f2 are one inode.  Copy "*" with wildcards and dir-contents to "/": the contents
+   of d1 -> /f2 (recorded), f -> /f linked to /f2, f2 -> /f2 replaces it: the record is forgotten
+   although /f survives, /f2 is copied afresh.  Every dentry is right; /f and /f2, one group in
+   the source, are two inodes. *)
+Definition ex_split_src : snode :=
+  SNode [] 0 ex_rootd
+    [ SNode n_d1 1 (exd (S_IFDIR + 493) 0 0 5 [] [] []) [ SNode n_f2 3 ex_A [] ];
+      SNode n_f 3 ex_A []; SNode n_f2 3 ex_A [] ].
+Definition o_wild_dc : copts :=
+  {| o_chown := None; o_mode := None; o_modestr := []; o_utime := None; o_dircontents := true;
+     o_replace := false; o_wild := true; o_umask := 18 |}.
+Definition star_pat : list N := [42].
+
+Lemma ex_split_src_wf : wf_src ex_split_src /\ links_consistent ex_split_src.
+Proof.
+  split; [split; [|reflexivity]|].
+  - unfold ex_split_src. repeat wf_node.
+  - exists (fun _ => ex_A). unfold ex_split_src. cons_tac.
+Qed.
+
+(* the exact inode partition ("same group <-> same inode") is false of the model for wildcard
+   sources with a link group, although every dentry matches *)
+Lemma copy_overlay_partition_refuted_proof :
   exists o sroot fs src dst,
     wf_src sroot /\ links_consistent sroot /\ wf_fs fs /\
     match overlay_all o sroot (view_of_fs fs) src dst with
-    | inl r => ~ view_matches (view_of_fs (c_fs (fst (copy_top o sel_all sroot fs src dst)))) (xr_view r)
+    | inl r =>
+      let V := view_of_fs (c_fs (fst (copy_top o sel_all sroot fs src dst))) in
+      snd (copy_top o sel_all sroot fs src dst) = None /\
+      ~ (forall p q, keys_at V (xr_view r) p q = true)
     | inr _ => False
     end.
 Proof.
-  exists o_wild_on, ex_stale_src, fs_empty, stale_pat, s_slash.
-  split; [apply ex_stale_src_wf|]. split; [apply ex_stale_src_wf|]. split; [apply fs_empty_wf|].
-  destruct (overlay_all o_wild_on ex_stale_src (view_of_fs fs_empty) stale_pat s_slash) as [r|x] eqn:E.
-  - intros [HM _]. specialize (HM [n_f2]).
-    assert (Hb : match overlay_all o_wild_on ex_stale_src (view_of_fs fs_empty) stale_pat s_slash with
-                 | inl r0 => match_at (view_of_fs (c_fs (fst (copy_top o_wild_on sel_all ex_stale_src fs_empty stale_pat s_slash)))) (xr_view r0) [n_f2]
+  exists o_wild_dc, ex_split_src, fs_empty, star_pat, s_slash.
+  split; [apply ex_split_src_wf|]. split; [apply ex_split_src_wf|]. split; [apply fs_empty_wf|].
+  destruct (overlay_all o_wild_dc ex_split_src (view_of_fs fs_empty) star_pat s_slash) as [r|x] eqn:E.
+  - cbv zeta. split; [vm_compute; reflexivity|]. intros HK. specialize (HK [n_f] [n_f2]).
+    assert (Hb : match overlay_all o_wild_dc ex_split_src (view_of_fs fs_empty) star_pat s_slash with
+                 | inl r0 => keys_at (view_of_fs (c_fs (fst (copy_top o_wild_dc sel_all ex_split_src fs_empty star_pat s_slash)))) (xr_view r0) [n_f] [n_f2]
                  | inr _ => true end = false) by (vm_compute; reflexivity).
     rewrite E in Hb. congruence.
-  - assert (Hb : match overlay_all o_wild_on ex_stale_src (view_of_fs fs_empty) stale_pat s_slash with
+  - assert (Hb : match overlay_all o_wild_dc ex_split_src (view_of_fs fs_empty) star_pat s_slash with
                  | inl _ => true | inr _ => false end = true) by (vm_compute; reflexivity).
     rewrite E in Hb. discriminate.
 Qed.
